@@ -81,7 +81,7 @@ func (st *partState) closedList() []int {
 	return out
 }
 
-func runPartScript(sc Script, log *Log) {
+func runPartScript(sc Script, log *Log) (panicked bool) {
 	st := &partState{
 		trees: map[int]*part.Tree[int]{},
 		txns:  map[int]*part.Txn[int]{},
@@ -97,15 +97,16 @@ func runPartScript(sc Script, log *Log) {
 			panic(err)
 		}
 		var evs []Ev
-		msg, panicked := protect(func() { evs = st.exec(op) })
+		msg, p := protect(func() { evs = st.exec(op) })
 		for _, ev := range evs {
 			log.Emit(ev)
 		}
-		if panicked {
+		if p {
 			log.Emit(Ev{"op": "panic", "during": op.Op, "msg": msg})
-			return
+			return true
 		}
 	}
+	return false
 }
 
 func (st *partState) exec(op partOp) []Ev {
@@ -329,9 +330,11 @@ func (st *partState) exec(op partOp) []Ev {
 }
 
 func init() {
-	drivers["part"] = func(t *testing.T, scripts []Script, log *Log) {
-		for _, sc := range scripts {
-			runPartScript(sc, log)
+	drivers["part"] = func(t *testing.T, scripts []Script, from int, log *Log) {
+		for i := from; i < len(scripts); i++ {
+			if runPartScript(scripts[i], log) {
+				ExitAfterPanic(log, i+1)
+			}
 		}
 	}
 }
